@@ -193,7 +193,7 @@ prop('C12', 'containers are isolated',
      'Behaviour of interleavings across containers is NOT decided.')
 
 
-_ORD_C11 = {'inuse-claim', 'inuse-cooldown', 'inuse-cooldown-check', 'writers-enter', 'writers-leave', 'head-traverse-load', 'head-publish'}
+_ORD_C11 = {'inuse-claim', 'inuse-cooldown', 'inuse-cooldown-check', 'writers-enter', 'writers-leave', 'head-traverse-load', 'head-publish', 'inuse-verdict'}
 
 
 def _ord_c11(fx, col):
@@ -202,7 +202,7 @@ def _ord_c11(fx, col):
 
 prop('C11', 'thread churn is safe and bounded',
      [O.rule_inuse_fsm, N.rule_reuse_first, T.rule_cooldown_owned, _raii_only, _ord_c11, T.rule_node_some, T.rule_node_stable, P.rule_next_once, T.rule_writers_raii],
-     'Decides: the ownership flag of a node only moves along the four legal edges, the release edge guarded by '
+     'Decides: the ownership flag of a node only moves along the legal edges (born USED, USED->COOLDOWN by the owner, COOLDOWN->CHECKING by one checker, CHECKING->UNUSED|COOLDOWN by that checker, UNUSED->USED by a claimer), the release guarded by '
      'in_use == COOLDOWN and active_writers == 0 and performed by compare_exchange (INUSE-FSM); a node is allocated only '
      'after a complete failed attempt to reuse one, is initialised before it is published, and is claimed only by a '
      'successful UNUSED->USED exchange (REUSE-FIRST); a thread that lets go of its node detaches the handle and never uses '
